@@ -5,34 +5,39 @@ from translators import tr_c18
 
 PID = "C18"
 CLAIM = True
-MANIFEST_TEXT = ("29 Lean 4 theorems for ALL strings: the character-level transcription of processPath (path.cc, pass by pass) "
+MANIFEST_TEXT = ("39 Lean 4 theorems for ALL strings: the character-level transcription of processPath (path.cc, pass by pass) "
                  "terminates (its '/../' loop leaves through break within |text|+1 iterations) and equals the component-level "
                  "specification render(denote p); the result is in the documented normal form, denotes the same location, is "
-                 "idempotent and absolute paths never leave the root; prettyPath follows its table and preserves the location; "
-                 "pathIndicatesDirectory and concatPaths (their decision lists are REGENERATED from path.cc on every run) follow "
-                 "their tables; every row of the three example tables in the documentation (re-read from path.hh on every run) "
+                 "idempotent and absolute paths never leave the root; prettyPath follows its table, preserves the location, is "
+                 "idempotent and its output carries its own directory flag (both overloads' bodies are REGENERATED from path.cc "
+                 "on every run and proved equal to the canonical transcription); pathIndicatesDirectory and concatPaths (decision "
+                 "lists REGENERATED from path.cc) follow their tables, concatPaths is associative; every row of the three example tables in the documentation (re-read from path.hh on every run) "
                  "is evaluated in the kernel; relativePath is exactly the documented function of the two locations (error iff "
                  "mixed absolute/relative or more leading '..' in the base; otherwise the longest common list of components "
-                 "removed), its result is sanitised and relative and, concatenated back onto the base, denotes the target; "
+                 "removed), its result is sanitised and relative and, concatenated back onto the base, denotes the target and "
+                 "sanitises to the sanitised target; "
                  "hasPrefix/hasSuffix equal their plain definitions; formatString returns the complete text for every length up "
-                 "to INT_MAX and for ANY stack-buffer size (the size is re-read from stringutility.hh), throws for longer texts "
-                 "and for conversion errors.  Each run compiles the current path.cc/stringutility.hh and compares them with the "
+                 "to INT_MAX and for ANY stack-buffer size (the size, the 'fits the stack buffer' test and the heap-buffer size are "
+                 "re-read from stringutility.hh and proved sound for all values), throws for longer texts and for conversion "
+                 "errors.  Each run compiles the current path.cc/stringutility.hh and compares them with the "
                  "model exhaustively on all strings over {/ . a b} up to length 9 (quick) / 11 (thorough), all pairs up to length "
                  "4 / 5, random longer and very long paths and pairs (bytes 0x00-0xff), every format result length around the "
-                 "current buffer size, %d %ld %u %x %c %lc %s arguments, with an independent component-resolver oracle deciding "
+                 "current buffer size, %d %ld %lld %u %zu %x %X %o %c %lc %s with flags - + 0, widths (also '*') and %.Ns, 0-6 "
+                 "arguments, outputs fed back in (second use), three-operand concatenations, with an independent component-resolver oracle deciding "
                  "the property itself (including the documented rows, other container types for hasPrefix/hasSuffix, and in the "
-                 "thorough tier the 2 GiB results at INT_MAX-1 / INT_MAX).")
+                 "thorough tier the 2 GiB results at INT_MAX-1 / INT_MAX and paths of 76-80 k characters).")
 MANIFEST_NOTE = ("Trusted: Lean kernel (+propext/Classical.choice/Quot.sound), tr_c18.py, the hand-written model's fidelity for the "
-                 "loops of processPath/relativePath and for prettyPath/formatString (checked by the exhaustive differential run "
-                 "only), harness/driver string encoding, g++/libstdc++/ASan/UBSan, the C library's snprintf (formatString is "
+                 "loops of processPath/relativePath, for the snprintf calls/throw checks of formatString and for the printf subset "
+                 "(checked by the exhaustive differential run only), harness/driver string encoding, g++/libstdc++/ASan/UBSan, the C library's snprintf (formatString is "
                  "modelled as 'snprintf into the stack buffer, else heap' on the ideal text or conversion error; std::bad_alloc is "
-                 "not modelled).  If a refactoring takes pathIndicatesDirectory/concatPaths/the buffer declaration/the doc "
-                 "tables outside the translator's grammar the translator falls back to its built-in transcription (counted as "
-                 "translator_fallbacks in the evidence) and that item is tied by the differential run only.  Needs "
+                 "not modelled).  If a refactoring takes pathIndicatesDirectory/concatPaths/prettyPath/the formatString skeleton/the "
+                 "buffer declaration/the doc tables outside the translator's grammar the translator falls back to its built-in "
+                 "transcription (counted as translator_fallbacks in the evidence), the run is widened by the search batches, and "
+                 "that item is tied by the differential run only.  Needs "
                  "fixes/C18_fmt_intmax.patch: the unpatched formatString overflows a signed int for a result of exactly INT_MAX "
                  "characters (thorough tier: replay 'F 2147483647').")
 TECHNIQUE = ("Lean 4 proof (char-level model refines component-level spec; termination; exact relativePath) + translator for the "
-             "decision lists, buffer size and documentation tables + exhaustive differential correspondence with independent "
+             "decision lists, both prettyPath bodies, the formatString size test/heap size/buffer size and documentation tables + exhaustive differential correspondence with independent "
              "resolver oracle")
 TRANSLATORS = [tr_c18.translate]
 HARNESS = dict(
@@ -43,21 +48,25 @@ HARNESS = dict(
 )
 RULE = ("cases: docrows = every row of the example tables in the current path.hh; u = every string over the alphabet "
         "{'/', '.', 'a', 'b'} up to length 9 (quick) / 11 (thorough) through processPath, prettyPath (3 forms), "
-        "pathIndicatesDirectory; b = every ordered pair of such strings up to length 4 / 5 through concatPaths, relativePath, "
-        "hasPrefix, hasSuffix (std::string; the oracle also runs vector/deque/list/string_view); ur/br = seeded random longer "
+        "pathIndicatesDirectory, and the outputs fed back in (prettyPath of a pretty path, processPath of a pretty path, "
+        "relativePath(p, processPath p)); b = every ordered pair of such strings up to length 4 / 5 through concatPaths, relativePath, "
+        "hasPrefix, hasSuffix (std::string; the oracle also runs vector/deque/list/string_view), three-operand "
+        "concatenations (associativity) and the string-level round trip; ur/br = seeded random longer "
         "paths built from components {'', '.', '..', names, names with dots/blanks/upper case/NUL/bytes >= 0x80} and related "
         "pairs (prefix, suffix, shared leading components, one letter's case flipped, 1 in 40 with a path of 200-3100 "
-        "characters); ul = paths of 200-3100 characters; bl = strings of length 0-3, cap-2..cap+2, 2*cap with "
+        "characters); ul = paths of 200-3100 characters; uh (thorough) = 2 paths of 76-80 k characters; bl = strings of length 0-3, cap-2..cap+2, 2*cap with "
         "prefixes/suffixes/one-character changes/NUL; f = formatString with every result length 0..min(2*cap+100, 4200), "
         "cap-8..cap+8, 2*cap-8..2*cap+8 and random ones there (cap = the stack buffer size read from the current "
-        "stringutility.hh), arguments int/long/unsigned/char/wint_t/const char*, conversion errors; F = widths beyond INT_MAX "
+        "stringutility.hh), arguments int/long/long long/unsigned/size_t/char/wint_t/const char* (0-6 of them), flags - + 0, "
+        "'*' widths (also negative), %.Ns, %X %o, conversion errors; fallbackN = the search batches, added when the translator "
+        "fell back for an item; F = widths beyond INT_MAX "
         "(must throw), 70000 and 3000000, thorough: INT_MAX-1 and INT_MAX.  distinct = distinct op lines; every case is "
         "oracle-checked (non-trivial)")
 ASSUMPTIONS = [
-    "the loops of processPath and relativePath, prettyPath and formatString are hand-written in lean/DuneVerif/Model/C18.lean; their fidelity to path.cc/stringutility.hh rests on this differential run (exhaustive up to the stated lengths)",
-    "pathIndicatesDirectory, concatPaths, the formatString buffer size and the documentation tables are regenerated from the source by tools/translators/tr_c18.py (fail-soft: outside its grammar the built-in transcription is used and counted in distribution.translator_fallbacks)",
+    "the loops of processPath and relativePath and the call/throw structure of formatString are hand-written in lean/DuneVerif/Model/C18.lean; their fidelity to path.cc/stringutility.hh rests on this differential run (exhaustive up to the stated lengths)",
+    "pathIndicatesDirectory, concatPaths, both prettyPath overloads, the formatString buffer size, its 'fits the stack buffer' test and heap-buffer size, and the documentation tables are regenerated from the source by tools/translators/tr_c18.py (fail-soft: outside its grammar the built-in transcription is used, counted in distribution.translator_fallbacks, and the run is widened by the search batches)",
     "hasPrefix/hasSuffix take the pattern as a C string (up to the first NUL); containers and paths may contain any byte",
-    "formatString is modelled on the ideal formatted text or conversion error; snprintf itself (libc, classic locale) is trusted, exercised with %d %ld %u %x %c %lc %s %% and the flags '-', '0' and a width; std::bad_alloc is not modelled",
+    "formatString is modelled on the ideal formatted text or conversion error; snprintf itself (libc, classic locale) is trusted, exercised with %d %ld %lld %u %zu %x %X %o %c %lc %s %% and the flags '-', '+', '0', a width (digits or '*') and a precision on %s; std::bad_alloc is not modelled",
     "results of 2^31-2 and 2^31-1 characters are built in the thorough tier only; for them and for widths beyond INT_MAX only the outcome class (returns/throws) is compared with the model (theorem formatString_outcome), the text by the oracle",
 ]
 TRUSTED = ["g++/libstdc++, ASan/UBSan, libc snprintf", "translator tools/translators/tr_c18.py",
@@ -134,6 +143,9 @@ def batches(tier, seed):
     res.append(dict(args=["--mode", "ur", "--cases", str(nr), "--seed", str(seed * 1000 + 1)], tag="ur", timeout=1500))
     res.append(dict(args=["--mode", "br", "--cases", str(nr), "--seed", str(seed * 1000 + 2)], tag="br", timeout=1500))
     res.append(dict(args=["--mode", "ul", "--cases", str(150 if quick else 3000), "--seed", str(seed * 1000 + 5)], tag="ul", timeout=1500))
+    if not quick:
+        # paths longer than a 16-bit index (the model's find("/../") is quadratic: about 20 s per case)
+        res.append(dict(args=["--mode", "uh", "--cases", "2", "--seed", str(seed * 1000 + 6)], tag="uh", timeout=3000))
     res.append(dict(args=["--mode", "bl", "--cases", str(600 if quick else 6000), "--seed", str(seed * 1000 + 3), "--bufsize", str(N)],
                     tag="bl", timeout=1500))
     res.append(dict(args=["--mode", "f", "--cases", str(_fcases(N, 900 if quick else 9000)), "--seed", str(seed * 1000 + 4),
@@ -142,6 +154,11 @@ def batches(tier, seed):
     # boundary INT_MAX-1 / INT_MAX (about 15 s and 4.5 GB each under ASan)
     res.append(dict(args=["--mode", "F", "--cases", "7" if quick else "9", "--big", "0" if quick else "1", "--seed", str(seed)],
                     tag="F", timeout=1500))
+    if nfall > 0:
+        # the source left the translator's grammar somewhere: that item is tied by the differential run only, so the
+        # run is widened (the same batches a broken obligation would trigger) instead of raising an alarm
+        for k, b in enumerate(search_batches(seed)[2:7]):
+            res.append(dict(b, tag="fallback%d" % k, timeout=1500))
     return res
 
 
